@@ -669,7 +669,8 @@ def combine_fields(arrlist):
             raise ValueError('not all arrays are the same size')
         descr += arr.dtype.descr
 
-    new_array = np.zeros(num, dtype=descr)
+    # keep the shape of the inputs (0-d and multi-dimensional arrays too)
+    new_array = np.zeros(arrlist[0].shape, dtype=descr)
 
     for arr in arrlist:
         copy_fields(arr, new_array)
